@@ -82,3 +82,53 @@ func VerifC13Exchange(r VerifC13Response) (statusCode int, ok bool, msgs []strin
 	statusCode, ok = examineWireDetails(ctx, p)
 	return statusCode, ok, p.take(), nil
 }
+
+// VerifC13Capture drives the real wireReader over a body delivered in the given chunk sizes
+// (cyclically; 0 = as much as the caller asks) with a caller that reads bufSize bytes at a time:
+// what the caller received and what the wrapper's buffer captured.
+func VerifC13Capture(body []byte, chunks []int, bufSize int) (received, captured []byte) {
+	ctx := withWireCapture(context.Background())
+	wrapper, _ := ctx.Value(wireCtxKey{}).(*wireWrapper)
+	src := &verifC13CycleBody{data: append([]byte(nil), body...), chunks: chunks}
+	rd := &wireReader{body: src, wrapper: wrapper}
+	buf := make([]byte, bufSize)
+	for {
+		n, err := rd.Read(buf)
+		received = append(received, buf[:n]...)
+		if err != nil {
+			break
+		}
+	}
+	_ = rd.Close()
+	return received, append([]byte(nil), wrapper.buf.Bytes()...)
+}
+
+type verifC13CycleBody struct {
+	data   []byte
+	chunks []int
+	i      int
+}
+
+func (b *verifC13CycleBody) Read(p []byte) (int, error) {
+	if len(b.data) == 0 {
+		return 0, io.EOF
+	}
+	n := len(p)
+	if len(b.chunks) > 0 {
+		if c := b.chunks[b.i%len(b.chunks)]; c > 0 && n > c {
+			n = c
+		}
+		b.i++
+	}
+	if n > len(b.data) {
+		n = len(b.data)
+	}
+	copy(p, b.data[:n])
+	b.data = b.data[n:]
+	if len(b.data) == 0 {
+		return n, io.EOF // last bytes together with EOF, as many readers do
+	}
+	return n, nil
+}
+
+func (b *verifC13CycleBody) Close() error { return nil }
